@@ -118,14 +118,15 @@ BATTERY = [
 ]
 
 CFG = {
-    # max_depth counts the seed transition: 5 = every history of up to 4 operations is expanded ... (5 operations are reached and judged)
+    # max_depth counts the seed transition: 6 = every history of up to 4 operations is expanded (all its transitions taken and
+    # judged), histories of 5 operations are reached and judged as states.  cap = custom profiles registered at the same time.
     'quick': {
-        'profiles': CUSTOM, 'removable_builtin': False, 'cap': 3, 'max_depth': 5, 'pairs': 'macro-profiles-ascending+P6P5',
-        'modes': ['copy', 'shared'], 'expand_defaults': [None, 'P2'],
+        'profiles': CUSTOM, 'removable_builtin': False, 'cap': {'builtin': 3, 'emptied': 3}, 'max_depth': 6,
+        'pairs': 'ascending+P6P5', 'modes': ['copy', 'shared'], 'expand_defaults': [None, 'C2', 'P2'],
     },
     'thorough': {
-        'profiles': CUSTOM, 'removable_builtin': True, 'cap': 3, 'max_depth': 7, 'pairs': 'ordered',
-        'modes': ['copy', 'shared'], 'expand_defaults': [None, 'C2', 'P2', ['C2', 'P2']],
+        'profiles': CUSTOM, 'removable_builtin': True, 'cap': {'builtin': 3, 'emptied': 3}, 'max_depth': 7,
+        'pairs': 'ordered', 'modes': ['copy', 'shared'], 'expand_defaults': [None, 'C2', 'P2', ['C2', 'P2']],
     },
 }
 DEFAULT_MENU = ['C2', 'B'] + CUSTOM
@@ -158,7 +159,7 @@ class IllFormed(Exception):
 class World:
     def __init__(self, seedop):
         _, seed, mode = seedop
-        self.mode = mode
+        self.seed, self.mode = seed, mode
         self.defs = {a: (dict(p), dict(m)) for a, (p, m) in RAW.items()}  # the caller's dictionaries of this history
         self.p = P(log=cssutils.log)
         self.seq = list(BUILTIN_NAMES)  # bookkeeping by the harness, not read from the object
@@ -586,23 +587,23 @@ def operations(w, tier):
     ops = []
     registered = [a for a in c['profiles'] if NAME[a] in w.seq]
     free = [a for a in c['profiles'] if NAME[a] not in w.seq]
-    room = c['cap'] - len(registered)
+    room = c['cap'][w.seed] - len(registered)
     addable = list(free) if room >= 1 else []
     b_free = c['removable_builtin'] and C3CN not in w.seq
     if b_free:
         addable.append('B')
     for a in addable:
         ops.append(['add', a])
-    for a in addable:
-        ops.append(['addmany', [a]])
+    if w.mode != 'shared':
+        for a in addable:
+            ops.append(['addmany', [a]])
     if w.mode == 'shared':
         # the shared-dictionaries half of the search is about add / remove / re-add of the same dictionary objects
         pairs = []
     elif c['pairs'] == 'ordered':
         pairs = list(itertools.permutations(free, 2))
     else:
-        m = [a for a in free if a in WITH_MACROS]
-        pairs = list(itertools.combinations(m, 2)) + ([('P6', 'P5')] if 'P5' in free and 'P6' in free else [])
+        pairs = list(itertools.combinations(free, 2)) + ([('P6', 'P5')] if 'P5' in free and 'P6' in free else [])
     if room >= 2:
         for a, b in pairs:
             ops.append(['addmany', [a, b]])
@@ -653,6 +654,7 @@ def _prov(res, f, case):
 def _record_state(res, w, obs, history):
     found = judge_state(w, obs, res.clauses, with_contents=False)  # C14.contents: see _note_state / run
     res.validated += 1
+    res.evaluations += 1
     for f in found:
         _prov(res, f, {'kind': 'state', 'history': history})
     return not any(f.clause == 'C14.valid_iff' for f in found)
@@ -692,8 +694,6 @@ def _expand_state(res, h, tier):
     obs0 = observe(w)
     k0i = internal_digest(w)
     res.counters['states_expanded'] += 1
-    if (_first_exc(obs0['val']) or _first_exc(obs0['vwp'])) is None:
-        res.counters['states_expanded_without_exception_in_observation'] += 1
     reg = registry(w.seq)
     state_ok = not _first_exc(obs0['val']) and obs0['val'] == [reg.valid(n, v) for n, v in BATTERY]
     res.sample({'kind': 'state', 'history': h})
@@ -1003,7 +1003,7 @@ def replay(case, tier, seed):
 
 def run(ctx):
     c = CFG[ctx.tier]
-    total = explore.bfs(ctx, 'expand', max_depth=c['max_depth'], batch=6)
+    total = explore.bfs(ctx, 'expand', max_depth=c['max_depth'], batch=2)
     left = total.counters.get('frontier_states_left_unexpanded_at_depth_bound', 0)
     total.counters['closure_reached_under_cap'] = 0 if left else 1
     # C14.contents, pairwise form: every contents (ordered profiles, defaultProfiles) must have been seen with ONE observation
